@@ -152,12 +152,14 @@ Fixpoint is_prefix (a p : list str) : bool :=
   end.
 
 Definition to_lower (b : N) : N := if (65 <=? b) && (b <=? 90) then b + 32 else b.
+(** the name ends in a configured extension, letter case aside *)
 Definition has_ext (exts : list str) (name : str) : bool :=
-  existsb (fun e => ends_with e (map to_lower name)) exts.
+  existsb (fun e => ends_with (map to_lower e) (map to_lower name)) exts.
 
-(** "for ext in sql_file_exts { if fname.to_lowercase().ends_with(ext) { buffer.push(fpath) } }" *)
-Definition ext_pushes (exts : list str) (o : out) (name : str) : list out :=
-  flat_map (fun e => if ends_with e (map to_lower name) then [o] else []) exts.
+(** "for ext in sql_file_exts { if fname.to_lowercase().ends_with(&ext.to_lowercase()) { buffer.push(fpath) } }";
+    [lower_ext = false]: the extension was compared as written (before the repair). *)
+Definition ext_pushes (lower_ext : bool) (exts : list str) (o : out) (name : str) : list out :=
+  flat_map (fun e => if ends_with (if lower_ext then map to_lower e else e) (map to_lower name) then [o] else []) exts.
 
 (** WalkDir below [a] (the root included). *)
 Definition walk (t : tree) (a : list str) : list entry := filter (fun e => is_prefix a (e_path e)) t.
@@ -194,12 +196,12 @@ Definition sort_outs (l : list out) : list out := fold_right insert_out [] l.
 (** [helpers::normalize] drops the "./" of the spelling. *)
 Definition norm_pfx (p : pfx) : pfx := match p with Dot => Rel | x => x end.
 
-(** [paths_from_path] on a directory. [files_only = true] is the code after the repair (directory entries
-    are skipped); [false] is the code before it. *)
+(** [paths_from_path] on a directory. [files_only = true] is the code after the repairs (directory entries
+    are skipped, extensions compared in lower case); [false] is the code before them. *)
 Definition paths_from_dir_gen (files_only : bool) (t : tree) (exts : list str) (pf : pfx) (a : list str) : list out :=
   let buffer :=
     flat_map (fun e => if files_only && e_dir e then []
-                       else ext_pushes exts (norm_pfx pf, e_path e) (last (e_path e) []))
+                       else ext_pushes files_only exts (norm_pfx pf, e_path e) (last (e_path e) []))
              (walk t a) in
   sort_outs (nub out_eqb buffer).
 Definition paths_from_dir := paths_from_dir_gen true.
